@@ -142,6 +142,9 @@ func TestVerifRemoteMapReplay(t *testing.T) {
 			t.Fatalf("bad behaviour: %v", err)
 		}
 		nb++
+		if nm >= 25 {
+			return // enough divergences to report; do not wait out the rest
+		}
 		w := vrmNew(T)
 		for i, step := range beh {
 			ns++
